@@ -117,6 +117,17 @@ func observerBoundary(r *Rng) []c12Case {
 			g.op("retry", 60*sec, 100)
 		})
 	}
+	// two flows at once on the shared runner: the second runs a whole Process call while the first is held inside its
+	// first sink call (a slow database); each call's results go to that call's sinks with that call's payloads
+	for _, kk := range [][2]int{{kLog, kSample}, {kRecFinal, kLog}, {kRetry, kCondFinal}, {kRecProp, kLog}} {
+		kk := kk
+		add("two-flows-overlap-"+kindNames[kk[0]]+"-"+kindNames[kk[1]], 8, func(g *gen) {
+			a := g.mixed(1, 7, 5)
+			b := g.mixed(101, 7, 6)
+			g.c.Steps = append(g.c.Steps, c12Step{Op: "par", Kind: kk[0], At: 0, Pls: a, Kind2: kk[1], Pls2: b})
+			g.op("retry", 40*sec, 100)
+		})
+	}
 	for k := kLog; k <= kSample; k++ {
 		k := k
 		add("routing-"+kindNames[k], 4, func(g *gen) {
@@ -375,7 +386,10 @@ func flowsRandom(r *Rng) c12Case {
 func queueBoundary(r *Rng) []c12Case {
 	var cs []c12Case
 	tag := 0
-	pl := func(wid, blk, hash int) kit.Payload { tag++; return kit.Payload{Wid: wid, Blk: blk, Hash: hash, Tag: tag} }
+	pl := func(wid, blk, hash int) kit.Payload {
+		tag++
+		return kit.Payload{Wid: wid, Blk: blk, Hash: hash, Tag: tag}
+	}
 	add := func(fam string, steps ...c12Step) { cs = append(cs, c12Case{Family: fam, Mode: "queue", Steps: steps}) }
 	enq := func(at int64, recs ...enqRec) c12Step { return c12Step{Op: "enq", At: at, Recs: recs} }
 	deq := func(at int64, n int) c12Step { return c12Step{Op: "deq", At: at, N: n} }
